@@ -69,6 +69,8 @@ func dfsScenarios() []*rpcsim.Scenario {
 		one("dfs-result-error-cancel", 1, res0, err2, cancel),
 		one("dfs-result-ack-tick", 1, res0, ack1, adv3),
 		one("dfs-result-cancel-fclose", 1, res0, cancel, fclose),
+		one("dfs-result-dup-cancel", 1, res0, res1, cancel),
+		one("dfs-result-foreign-fclose", 1, res0, frn3, fclose),
 		two,
 	}
 }
